@@ -803,6 +803,67 @@ Proof.
     repeat match goal with E : bytes_eqb _ _ = false |- _ => rewrite E; clear E end. reflexivity.
 Qed.
 
+(* ---- what a FAILING operation leaves behind.  The document the caller gets back is the one the
+   operation found — with the single exception json-c documents: a move whose source has been
+   taken out and whose placement then fails (the source is gone).  In particular a move of the
+   whole document is refused before anything is touched, whatever "path" is — well-formed or
+   not: there is no state in which the root has been released and the operation still fails. *)
+Theorem move_of_root_rejected_first : forall al doc p,
+  p <> [] -> move_copy_strings al doc [] p true = OErr EINVAL doc.
+Proof.
+  intros al doc p Hp. unfold move_copy_strings. rewrite prefix_verdict_move.
+  destruct p; [congruence|reflexivity].
+Qed.
+
+Definition after_failed_move (doc d : jv) : Prop :=
+  exists from r, from <> [] /\ ptr_get_internal doc from = GIOk r /\ remove_result doc r = Some d.
+
+Lemma move_copy_failure al doc from p move e d :
+  move_copy_strings al doc from p move = OErr e d -> d = doc \/ after_failed_move doc d.
+Proof.
+  unfold move_copy_strings. destruct move.
+  - rewrite prefix_verdict_move. destruct from as [|a f].
+    + destruct p; cbn [andb negb same_location_needs_lookup].
+      * destruct (ptr_get_internal doc []); intros H; inversion H; auto.
+      * intros H; inversion H; auto.
+    + destruct (pv_core (a :: f) p); cbn [andb negb same_location_needs_lookup];
+        try (intros H; inversion H; auto; fail);
+        (destruct (ptr_get_internal doc (a :: f)) as [r|e0] eqn:G; [|intros H; inversion H; auto]);
+        try (intros H; discriminate H).
+      destruct (remove_result doc r) as [d1|] eqn:R; [|intros H; inversion H; auto].
+      destruct (ptr_set_with_array_cb move_cb al d1 p (r_obj r)); intros H; inversion H. subst.
+      right. exists (a :: f), r. split; [discriminate|]. auto.
+  - cbn [prefix_verdict andb]. destruct (ptr_get_internal doc from); [|intros H; inversion H; auto].
+    destruct (ptr_set_with_array_cb _ _ _ _ _); intros H; inversion H; auto.
+Qed.
+
+Theorem failed_op_document : forall al doc o e d,
+  apply_op al doc o = OErr e d -> d = doc \/ after_failed_move doc d.
+Proof.
+  intros al doc o e d.
+  assert (T : forall path, apply_test doc o path = OErr e d -> d = doc).
+  { intros path. unfold apply_test. destruct (field o s_value) as [v1|]; [|intros H; inversion H; auto].
+    destruct (get_c doc path) as [q v2|]; [|intros H; inversion H; auto].
+    destruct (jv_equal v1 v2); intros H; inversion H; auto. }
+  assert (R : forall path, apply_remove doc path = OErr e d -> d = doc).
+  { intros path. unfold apply_remove. destruct (get_internal_c doc path); [|intros H; inversion H; auto].
+    destruct (remove_result doc r); intros H; inversion H; auto. }
+  assert (A : forall path add, apply_add_replace al doc o path add = OErr e d -> d = doc).
+  { intros path add. unfold apply_add_replace. destruct (field o s_value); [|intros H; inversion H; auto].
+    destruct (if add then None else _); [intros H; inversion H; auto|].
+    destruct (set_c _ _ _ _ _); intros H; inversion H; auto. }
+  assert (M : forall path move, apply_move_copy al doc o path move = OErr e d -> d = doc \/ after_failed_move doc d).
+  { intros path move. unfold apply_move_copy. destruct (field o s_from) as [j|]; [|intros H; inversion H; auto].
+    destruct j; cbn [from_field]; try (intros H; inversion H; auto; fail).
+    destruct path as [p|]; [apply move_copy_failure|intros H; inversion H; auto]. }
+  unfold apply_op. destruct (field o s_op) as [jop|]; [|intros H; inversion H; auto].
+  destruct jop; cbn [op_field]; try (intros H; inversion H; auto; fail).
+  destruct (field o s_path) as [jpath|]; [|intros H; inversion H; auto].
+  destruct jpath; cbn [path_field]; try (intros H; inversion H; auto; fail);
+    repeat match goal with |- context [if ?b then _ else _] => destruct b end;
+    intros H; eauto; inversion H; auto.
+Qed.
+
 (* ================================================================ F'. where the "test" guard holds *)
 From JC Require EqProofs.
 
